@@ -15,3 +15,6 @@ DEPS['C13'] += ['smithy_xml']
 DEPS['C04'] += ['errors']
 for _p in ['C02', 'C03']:
     DEPS[_p] += ['routes', 'smithy_ops', 'xmlschema', 'bindings']
+DEPS['C16'] += ['secrets']
+DEPS['C04'] += ['panics']
+DEPS['C04'] += ['bindings']
